@@ -52,6 +52,8 @@ class SliceExprVisitor(TraverserVisitor):
             self.accept(node.expr)
 
     def visit_index_expr(self, node: IndexExpr) -> None:
+        super().visit_index_expr(node)
+
         if not is_same_type(get_mypy_type(node.base), bytearray, list, tuple):
             return
 
